@@ -496,7 +496,40 @@ def _binop(op, a, b, w):
         if ww > 16: raise Unsupported('%s of two symbolic operands wider than 16 bits' % op)
         f = _PYOP[op]
         return V(z3.BV2Int(f(z3.Int2BV(a.e, ww), z3.Int2BV(b.e, ww))), 0, (1 << ww) - 1)
+    if op in ('shl', 'lshr', 'ashr') and cb is None and 0 <= b.lo and b.hi - b.lo <= 15 and b.hi < w:
+        # shift by a symbolic amount out of a small interval (1 << (i & 7)): case split on the amount
+        res = None
+        for k in range(b.lo, b.hi + 1):
+            v = _binop(op, a, C(k), w)
+            res = v if res is None else vite(b.e == k, v, res)
+        return res
     raise Unsupported('binop %s with symbolic shift amount' % op)
+
+
+def _branch_refinements(cmp, l_true, l_false):
+    """{successor label: (V object, narrowed copy)} for `icmp pred x, const` (or const, x) feeding a conditional branch"""
+    if cmp is None or l_true == l_false: return None
+    pred, a, b, w = cmp
+    if not (isinstance(a, V) and isinstance(b, V)): return None
+    half = 1 << (w - 1)
+    if a.conc() is None and b.conc() is not None: x, c = a, b.lo
+    elif b.conc() is None and a.conc() is not None:
+        x, c = b, a.lo
+        pred = {'ult': 'ugt', 'ule': 'uge', 'ugt': 'ult', 'uge': 'ule', 'slt': 'sgt', 'sle': 'sge', 'sgt': 'slt', 'sge': 'sle'}.get(pred, pred)
+    else: return None
+    if pred[0] == 's':
+        if x.hi >= half or c >= half: return None
+        pred = 'u' + pred[1:]
+    def narrowed(lo, hi):
+        lo = max(lo, x.lo); hi = min(hi, x.hi)
+        if lo > hi or (lo == x.lo and hi == x.hi) or lo == hi: return None
+        n = V(x.e, lo, hi); n.tz = x.tz; n.cs = x.cs; n.br = x.br
+        return (x, n)
+    top = (1 << w) - 1
+    t, f = {'ult': ((0, c - 1), (c, top)), 'ule': ((0, c), (c + 1, top)), 'ugt': ((c + 1, top), (0, c)), 'uge': ((c, top), (0, c - 1))}.get(pred, (None, None))
+    if t is None: return None
+    out = {l_true: narrowed(*t), l_false: narrowed(*f)}
+    return {k: v for k, v in out.items() if v is not None} or None
 
 
 def icmp_v(pred, a, b, w):
@@ -523,8 +556,8 @@ def icmp_v(pred, a, b, w):
 
 # ------------------------------------------------------------------ executor
 class State:
-    __slots__ = ('regs', 'mem', 'guard', 'ctx', 'block', 'ret', 'prev')
-    def __init__(s): s.regs = {}; s.mem = {}; s.guard = True; s.ctx = (); s.block = None; s.ret = None; s.prev = None
+    __slots__ = ('regs', 'mem', 'guard', 'ctx', 'block', 'ret', 'prev', 'refine')
+    def __init__(s): s.regs = {}; s.mem = {}; s.guard = True; s.ctx = (); s.block = None; s.ret = None; s.prev = None; s.refine = None
     def clone(s):
         n = State(); n.regs = dict(s.regs); n.mem = dict(s.mem); n.guard = s.guard; n.ctx = s.ctx; n.block = s.block; n.prev = s.prev
         return n
@@ -832,7 +865,8 @@ class Exec:
         if oc is not None: return s._read_at(cells, p.obj, oc, n, isptr)
         cand, lo, stride = s.candidates(st, p, n)
         if not isptr and len(cand) > 12 and isinstance(cand, range):
-            vals = [s._read_at(cells, p.obj, o, n, False) for o in cand]
+            try: vals = [s._read_at(cells, p.obj, o, n, False) for o in cand]
+            except Unsupported: vals = [V(z3.Int('_'), 0, 1)]          # a candidate is a pointer cell: decided per candidate below
             if all(v.conc() is not None for v in vals):
                 from . import core as _core
                 tab = [v.conc() for v in vals]
@@ -994,12 +1028,14 @@ class Exec:
         while heap:
             k = heapq.heappop(heap); st = pending.pop(k)
             if st.guard is False: continue
+            st.refine = None
             outs = s.exec_block(f, st, rets, depth)
             for i, (nb, g) in enumerate(outs):
                 ng = gand(st.guard, g)
                 if ng is False: continue
                 ns = st.clone() if i < len(outs) - 1 else st
                 ns.guard = ng
+                rf = getattr(st, 'refine', None)
                 ph = f['phis'][nb]
                 if ph:
                     newv = {}
@@ -1007,6 +1043,11 @@ class Exec:
                         newv[dst] = s.val(st, ty, inc[st.block])
                     if ns is st: ns.regs = dict(ns.regs)
                     ns.regs.update(newv)
+                if rf and rf.get(nb):
+                    # interval of a compared register narrowed by the branch condition (valid under the guard of this successor)
+                    ov, nv = rf[nb]
+                    ns.regs = {k_: (nv if v_ is ov else v_) for k_, v_ in ns.regs.items()}
+                if i == len(outs) - 1: st.refine = None
                 nest = f['nest'][nb]
                 if nest or st.ctx:
                     old = dict(st.ctx); ctx = []
@@ -1114,11 +1155,17 @@ class Exec:
                 r = s.icmp(p[2], a, b, p[4])
                 regs[p[1]] = C(int(r)) if isinstance(r, bool) else V(z3.If(r, 1, 0), 0, 1)
                 regs[p[1] + '#b'] = r
+                regs[p[1] + '#cmp'] = (p[2], a, b, p[4])
             elif k == 'cast':
                 _, dst, op, ty, tok, to, fb = p
                 v = s.val(st, ty, tok)
                 if op in ('zext', 'bitcast'): regs[dst] = v
                 elif op == 'sext':
+                    if isinstance(v, V) and v.conc() is None and v.lo == 0 and v.hi >= (1 << (fb - 1)):
+                        # the interval lost a path condition (a signed subtraction under a guard): one solver query restores a bound
+                        for bnd in (1 << 11, 1 << 16):
+                            if bnd < v.hi and s._infeasible(st, v.e >= bnd):
+                                nv = V(v.e, 0, bnd - 1); nv.tz = v.tz; nv.cs = v.cs; v = nv; break
                     sv = sgn(v, fb); r_ = norm(sv.e, sv.lo, sv.hi, to.bits)
                     if r_.lo != r_.hi and r_ is not v: r_.tz = v.tz
                     regs[dst] = r_
@@ -1174,6 +1221,7 @@ class Exec:
                     # path-precise mode: drop a branch side that the assumptions and the path guard exclude
                     if s._infeasible(st, g): return [(p[3], True)]
                     if s._infeasible(st, z3.Not(g)): return [(p[2], True)]
+                st.refine = _branch_refinements(regs.get(p[1] + '#cmp'), p[2], p[3])
                 return [(p[2], g), (p[3], z3.Not(g))]
             elif k == 'switch':
                 v = s.val(st, p[1], p[2]); w = M.res(p[1]).bits
